@@ -126,6 +126,49 @@ Proof.
     split; [exact Em|]. split; [reflexivity|]. split; [exact E|]. tauto.
 Qed.
 
+(* do_pass_token leaves the hold-time bookkeeping, the parameters and the application cursor alone *)
+Lemma do_pass_token_hold f now (w : W) f' w' :
+  do_pass_token A f now w = Ok (f', w') ->
+  f_p f' = f_p f /\ f_last_token_time f' = f_last_token_time f /\ f_end_tht f' = f_end_tht f /\
+  f_next_app f' = f_next_app f /\ f_conn f' = f_conn f.
+Proof.
+  unfold do_pass_token. intros H.
+  destruct (assert_entry DoPassToken f); cbn [bind] in H; try discriminate H.
+  destruct (wait_synchronization_pause f now) as [[f1 wait]| |] eqn:Ew; cbn [bind] in H; try discriminate H.
+  apply wait_sync_same in Ew. destruct Ew as [[Hp1 [_ [Hc1 [_ [_ [_ [Hl1 [He1 Hn1]]]]]]]] _].
+  destruct wait; [injection H as <- _; repeat split; assumption|].
+  destruct (get_pass_token (f_state f1)) as [[g att]| |]; cbn [bind] in H; try discriminate H.
+  match type of H with bind ?x _ = _ => destruct x as [[[f2 w2] polled]| |] eqn:E2 end; cbn [bind] in H; try discriminate H.
+  assert (H2 : f_p f2 = f_p f1 /\ f_last_token_time f2 = f_last_token_time f1 /\ f_end_tht f2 = f_end_tht f1 /\
+               f_next_app f2 = f_next_app f1 /\ f_conn f2 = f_conn f1).
+  { destruct g; [|injection E2 as <- _ _; repeat split; reflexivity].
+    match type of E2 with bind ?x _ = _ => destruct x as [[f3 w3]| |] eqn:E3 end; cbn [bind] in E2; try discriminate E2.
+    assert (H3 : f_p f3 = f_p f1 /\ f_last_token_time f3 = f_last_token_time f1 /\ f_end_tht f3 = f_end_tht f1 /\
+                 f_next_app f3 = f_next_app f1 /\ f_conn f3 = f_conn f1).
+    { destruct (f_gap f1) as [rc|cur].
+      - destruct (p_gap_wait (f_p f1) <? rc).
+        + apply next_gap_poll_traced_spec in E3. destruct E3 as [g0 [_ [-> _]]]. cbn. repeat split; reflexivity.
+        + destruct (u8_add rc 1); cbn [bind] in E3; try discriminate E3. injection E3 as <- _. cbn. repeat split; reflexivity.
+      - apply next_gap_poll_traced_spec in E3. destruct E3 as [g0 [_ [-> _]]]. cbn. repeat split; reflexivity. }
+    apply transmit_gap_poll_spec in E2. destruct E2 as [[Hp [_ [Hc [_ [_ [_ [Hl [He Hn]]]]]]]] _].
+    destruct H3 as [Hp3 [Hl3 [He3 [Hn3 Hc3]]]]. repeat split; congruence. }
+  destruct H2 as [Hp2 [Hl2 [He2 [Hn2 Hc2]]]].
+  destruct polled as [pa|].
+  - apply trans_spec in H. destruct H as [s' [_ [-> _]]]. cbn. repeat split; congruence.
+  - destruct (phy_send A w2 _) as [[w3 n]| |]; cbn [bind] in H; try discriminate H.
+    destruct (witness _ _ _) as [r| |]; cbn [bind] in H; try discriminate H.
+    match type of H with bind ?x _ = _ => destruct x as [[f4 w4]| |] eqn:E4 end; cbn [bind] in H; try discriminate H.
+    destruct (mark_tx f4 now n) as [f5| |] eqn:Em; cbn [bind] in H; try discriminate H. injection H as <- _.
+    apply mark_tx_same in Em. destruct Em as [Hp5 [_ [Hc5 [_ [_ [_ [Hl5 [He5 Hn5]]]]]]]].
+    assert (H4 : f_p f4 = f_p f2 /\ f_last_token_time f4 = f_last_token_time f2 /\ f_end_tht f4 = f_end_tht f2 /\
+                 f_next_app f4 = f_next_app f2 /\ f_conn f4 = f_conn f2).
+    { match type of E4 with (if ?c then _ else _) = _ => destruct c end.
+      - apply trans_spec in E4. destruct E4 as [s' [_ [-> _]]]. cbn. repeat split; reflexivity.
+      - destruct (get_pass_token _) as [[g2 att2]| |]; cbn [bind] in E4; try discriminate E4.
+        apply trans_spec in E4. destruct E4 as [s' [_ [-> _]]]. cbn. repeat split; reflexivity. }
+    destruct H4 as [Hp4 [Hl4 [He4 [Hn4 Hc4]]]]. repeat split; congruence.
+Qed.
+
 (* ------------------------------------------------------------------------------------------ *)
 (* C12: both callers of transmit_gap_poll_if_pending poll only inside the GAP                   *)
 
@@ -482,14 +525,14 @@ Qed.
 (* The hold-time rule, "only if" half: whenever do_use_token asks applications, either the time is
    still before the end of the hold time of this visit (low-priority round), or the hold time is over
    and this is the one guaranteed (high-priority) round of the visit. *)
-Lemma do_use_token_hold_rule f now (w : W) f' w' :
-  do_use_token A ops f now w = Ok (f', w') ->
+Lemma do_use_token_head_hold_rule f now (w : W) f' w' :
+  do_use_token_head A ops f now w = Ok (f', w') ->
   exists l hp, w_calls w' = w_calls w ++ l /\ Forall (is_transmit_call hp) l /\
     (l <> [] ->
      if hp then (exists tk fa, f_state f = UseToken tk fa false) /\ f_end_tht f' <= now
      else now < f_end_tht f').
 Proof.
-  unfold do_use_token, assert_entry. intros H.
+  unfold do_use_token_head, assert_entry. intros H.
   destruct (f_state f) as [ | | | |tk fa fcd| | | | | ] eqn:Es; cbn [kind_of do_fn_entry state_kind_eqb bind get_use_token] in H; try discriminate H.
   match type of H with bind ?x _ = _ => destruct x as [[f1 w1]| |] eqn:E1 end; cbn [bind] in H; try discriminate H.
   assert (H1 : w_calls w1 = w_calls w /\ f_state f1 = f_state f).
@@ -526,6 +569,23 @@ Proof.
           apply trans_spec in H. destruct H as [s' [_ [-> ->]]]. split; reflexivity. }
         destruct Hfin as [Hcw Hef]. exists l, true. rewrite Hcw, Hl, Hc1. split; [reflexivity|]. split; [exact Hf|].
         intros _. split; [exists tk, fa; reflexivity|]. rewrite Hef, He3. exact Hge.
+Qed.
+
+Lemma do_use_token_hold_rule f now (w : W) f' w' :
+  do_use_token A ops f now w = Ok (f', w') ->
+  exists l hp, w_calls w' = w_calls w ++ l /\ Forall (is_transmit_call hp) l /\
+    (l <> [] ->
+     if hp then (exists tk fa, f_state f = UseToken tk fa false) /\ f_end_tht f' <= now
+     else now < f_end_tht f').
+Proof.
+  rewrite do_use_token_split. intros H.
+  destruct (do_use_token_head A ops f now w) as [[f1 w1]| |] eqn:Eh; cbn [bind] in H; try discriminate H.
+  apply do_use_token_head_hold_rule in Eh.
+  destruct (is_pass_token (f_state f1)); [|injection H as <- <-; exact Eh].
+  destruct Eh as [l [hp [Hc [Hf Hr]]]].
+  pose proof (do_pass_token_frame A f1 now w1 f' w' H) as [Hc' _].
+  apply do_pass_token_hold in H. destruct H as [_ [_ [He _]]].
+  exists l, hp. rewrite Hc', He. split; [exact Hc|]. split; [exact Hf|exact Hr].
 Qed.
 
 
